@@ -123,6 +123,56 @@ def _op_chunk(task):
     return out
 
 
+# the same formula on several data sets in one process: the design of EVERY data set spans that data set's model space (transforms that
+# estimate parameters are estimated from the data at hand). (rhs, family over the derived columns, intercept, {derived column: recipe})
+STATEFUL = [
+    ("0 + f:scale(x)", [("f", "x_s")], False), ("0 + scale(x) + g:z", [("x_s",), ("g", "z")], False),
+    ("0 + g:center(z) + x", [("g", "z_c"), ("x",)], False), ("0 + center(x)", [("x_c",)], False), ("scale(x) + f", [("x",), ("f",)], True),
+    ("0 + poly(x, 2) + g:z", [("x_p1",), ("x_p2",), ("g", "z")], False), ("0 + f:center(x) + center(z)", [("f", "x_c"), ("z_c",)], False),
+]
+KINDS2 = dict(KINDS, x_s="num", x_c="num", z_c="num", x_p1="num", x_p2="num")
+
+
+def _derived(d):
+    e = d.copy()
+    e["x_s"] = (d["x"] - d["x"].mean()) / d["x"].std()
+    e["x_c"] = d["x"] - d["x"].mean()
+    e["z_c"] = d["z"] - d["z"].mean()
+    e["x_p1"] = d["x"] - d["x"].mean()                          # orthogonal polynomials of degree 1, 2 span the centred x, x^2
+    e["x_p2"] = d["x"] ** 2 - (d["x"] ** 2).mean()
+    return e
+
+
+def _stateful_chunk(task):
+    import logging
+    import warnings
+    items, seed = task
+    from formulae import design_matrices
+    from ..rtc.designs import model_space, failure_signature
+    from ..rtc.gen import factorial_frame, rank, same_span
+    logging.getLogger("formulae").setLevel(logging.CRITICAL)
+    warnings.simplefilter("ignore")
+    rng = np.random.default_rng(seed)
+    d0 = factorial_frame(rng, {"f": ["a", "b", "c"], "g": ["u", "v"], "h": ["p", "q", "r"]}, reps=3)
+    d1, d2 = d0.copy(), d0.copy()
+    d1["x"] = d0["x"] * 3 + 10
+    d1["z"] = d0["z"] ** 2 + 1
+    d2["x"] = np.exp(d0["x"] / (1 + np.abs(d0["x"]).max()))
+    d2["z"] = d0["z"] - 50
+    out = {}
+    for rhs, fam, icpt in items:
+        for k, d in enumerate((d0, d1, d2)):
+            key = f"y ~ {rhs}  [data set {k + 1} of 3 evaluated in one process]"
+            try:
+                X = np.asarray(design_matrices("y ~ " + rhs, d).common.design_matrix, dtype=float).reshape(len(d), -1)
+            except Exception as ex:
+                out[key] = failure_signature(ex)
+                continue
+            M = model_space(_derived(d), fam, KINDS2, icpt)
+            out[key] = "rank-deficient" if rank(X) != X.shape[1] else "ok" if same_span(X, M) else "span"
+    return out
+
+
 def results(tier, seed):
     fams = universe(tier)
     chunks = [(fams[i::128], seed) for i in range(128)]
@@ -131,6 +181,8 @@ def results(tier, seed):
         merged.update(r)
     ops = OPFORMS + ["0 + " + r for r in OPFORMS]
     for r in par.pmap(_op_chunk, [(ops[i::16], seed) for i in range(16)]):
+        merged.update(r)
+    for r in par.pmap(_stateful_chunk, [([it], seed) for it in STATEFUL]):
         merged.update(r)
     return merged
 
@@ -152,8 +204,11 @@ def PROOFS():
     """The per-factor part of the coding under contract: a factor evaluated with spans_intercept gets the full indicator
     coding, otherwise the reduced one, chosen afresh at every evaluation (the redundancy analysis of contrasts.py that decides
     spans_intercept per term is NOT under contract: bounded tier only)."""
-    from ..contracts import categorical_c, variable_c  # noqa: F401
+    from ..contracts import categorical_c, variable_c, utils_c, matrices_c  # noqa: F401
     return [("vf.contracts.categorical_c", categorical_c.FUNCTIONS),
+            # columns of an interaction are the pairwise products; the matrix is the terms' blocks side by side, one term per name
+            ("vf.contracts.utils_c", utils_c.FUNCTIONS),
+            ("vf.contracts.matrices_c", ["formulae.matrices.CommonEffectsMatrix.__init__", "formulae.matrices.CommonEffectsMatrix.evaluate"]),
             ("vf.contracts.variable_c", ["formulae.terms.variable.Variable.eval_categoric", "formulae.terms.call.Call.eval_categoric"])]
 
 
